@@ -656,9 +656,15 @@ def gen_keepalive(rng, knobs=None):
     opts = {'mode': k.get('mode') or rng.choice(['tcp', 'msg']), 'peer': 'server', 'keepalive_ms': period, 'lifetime_ms': life, 'ka': pat}
     prog = [['start'], ['settle']]
     t = 0
+    # the application may install its handler on the live connection (set_handler_using_factory): the notifications go to the handler
+    # that is installed when they are due
+    swap_at = rng.randrange(0, max(1, horizon)) if rng.random() < k.get('p_set_handler', 0.35) else None
     while t < horizon:
         step = rng.choice([period // 3 + 1, period, period + 1, life // 2 + 1, life, 2 * life + 3])
         step = max(1, min(step, horizon - t, 50000))
+        if swap_at is not None and t >= swap_at:
+            prog.append(['set_handler', 'c'])
+            swap_at = None
         prog.append(['advance', step])
         t += step
         if rng.random() < 0.25:
@@ -1171,12 +1177,23 @@ def gen_idwrap(rng, knobs=None):
     prog = [['start'], ['pump']]
     refs = 0
     live = []      # (ref, kind, role-scripted)
+    over = []      # refs of request-streams / request-responses that have probably ended (their id may since belong to another stream)
+    if k.get('late_actions'):
+        opts['late_actions'] = True
     for _ in range(rng.randint(6, 18)):
         ep = rng.choice(['c', 'c', 's'])
         r = rng.random()
         sp = spec(rng, big=rng.random() < 0.3)
+        if over and k.get('late_actions') and rng.random() < 0.35:
+            # a subscriber / caller tidies up an interaction that ended long ago (cancel / request on the old subscription, cancel of the
+            # old future): legal, and a no-op - whatever stream has the id by now is none of its business
+            ref = rng.choice(over)
+            t = rng.random()
+            prog.append(['cancel', ref, 'req'] if t < 0.6 else (['request_n', ref, 'req', rng.choice([1, 3])] if t < 0.8 else ['fut_cancel', ref]))
+            prog.append(['pump'])
         if r < 0.35:
             prog.append(['rr', ep, sp, {'mode': 'immediate', 'resp': spec(rng, big=rng.random() < 0.3)}])
+            over.append(refs)
             refs += 1
         elif r < 0.5:
             prog.append(['fnf', ep, sp])
@@ -1184,6 +1201,7 @@ def gen_idwrap(rng, knobs=None):
         elif r < 0.75:
             n = rng.choice([1, 2, 3])
             prog.append(['stream', ep, sp, rng.choice([5, None]), {'src': 'generator', 'items': items(rng, n), 'complete_on_last': True}, True])
+            over.append(refs)
             refs += 1
         elif r < 0.9:
             prog.append(['stream', ep, sp, rng.choice([1, 2, 5]), {'src': 'scripted'}, True])
